@@ -279,6 +279,10 @@ def reference(lex: dict, inv: dict) -> dict:
             t, tgt, src = r['relType'], r['target'], x['id']
             if t not in REV:
                 continue
+            if kind == 'sense' and tgt in ids_other and tgt not in ids_kind:
+                # sense -> synset relation: WN-LMF cannot express a relation from a synset
+                # back to a sense, so no reverse can be "missing"
+                continue
             back = (tgt, REV[t], src)
             must = (back not in decl_all
                     and tgt in ids_kind and tgt not in ids_other and src not in ids_other
